@@ -39,7 +39,7 @@ def worker_init():
 
 ROUTES = ["arrays", "frame_default", "frame_shift", "frame_perm_labels", "frame_string_labels", "frame_float_labels",
           "int_literals", "material_dict", "from_isotherm", "clone", "below_threshold", "negative_zero", "after_reads",
-          "branch_as_bool", "branch_as_float", "meta_order", "temperature_literal", "meta_nan", "meta_tuple_export"]
+          "branch_as_bool", "branch_as_float", "meta_order", "temperature_literal", "meta_nan", "meta_tuple_export", "export_parse_json", "export_parse_json"]
 
 
 def strat_same():
@@ -198,6 +198,15 @@ def check_same(desc, ctx):
         a = _build(dict(d, meta=dict(d.get("meta") or {}, dims=(1, 2))), p, l)
         from pygaps.parsing.json import isotherm_from_json
         b = isotherm_from_json(a.to_json())
+    elif route == "export_parse_json":
+        # a parse of the isotherm's own export - with the branch marks as generated, or interleaved user marks (scanning curves)
+        marks = None
+        if desc["k"] % 2:
+            marks = [int(x) for x in np.random.default_rng(desc["k"]).integers(0, 2, n)]
+        a = _build(d, p, l, branch_override=marks) if marks is not None else _build(d, p, l)
+        from pygaps.parsing.json import isotherm_from_json
+        b = isotherm_from_json(a.to_json())
+        ctx.label("export_parse_json", "interleaved_marks" if marks is not None and marks != sorted(marks) else "ordered_marks")
     elif route == "temperature_literal":
         # an integral temperature given as python int / numpy integer / numpy float / text vs the float literal
         t_int = int(round(d["T"]))
